@@ -163,7 +163,8 @@ func (t Time) Add(input Quantity) (Time, error) {
 		return Time{}, err
 	}
 	duration = roundToTimePrecision(timeMap[t.l], duration)
-	return Time{t.time.Add(duration), t.l}, nil
+	result := t.time.Add(duration)
+	return Time{result, layoutWithFraction(result, t.l)}, nil
 }
 
 // Sub returns the result of the time-valued quantity subtracted from t.
@@ -174,7 +175,8 @@ func (t Time) Sub(input Quantity) (Time, error) {
 		return Time{}, err
 	}
 	duration = roundToTimePrecision(timeMap[t.l], duration)
-	return Time{t.time.Add(-duration), t.l}, nil
+	result := t.time.Add(-duration)
+	return Time{result, layoutWithFraction(result, t.l)}, nil
 }
 
 // roundToTimePrecision is used to round down to the highest precision of
